@@ -152,7 +152,11 @@ func H_C03_history() {
 			}
 			var ies []*ie.IE
 			expectReject := false
-			switch vChoose("change", 7) {
+			switch vChoose("change", 8) {
+			case 7: // update a PDR, its QER list given with the session-level QER FIRST
+				up := pdrs[k][0]
+				up.qerIDs = vReversed(up.qerIDs)
+				ies = append(ies, up.update())
 			case 6: // a late Update FAR for a FAR the session does not have: nothing may be written for it
 				ghost := fars[k][1]
 				ghost.id = 9
@@ -174,7 +178,10 @@ func H_C03_history() {
 				}
 				created[k] = true
 				np := vPDRSpec{uplink: true, id: 3, prec: 50, teid: 0x4000 + uint32(k), n3: [4]byte{198, 18, 0, 1}, ue: [4]byte{10, 250, 0, byte(5 + k)}, farID: 3, qerIDs: pdrs[k][0].qerIDs,
-					sdf: "permit out tcp from 9.9.9.9 443 to assigned"} // same QER list as the session's other PDRs (re-marking of session QERs is C09)
+					sdf: "permit out tcp from 9.9.9.9 443 to assigned"} // same QER set as the session's other PDRs (re-marking of session QERs is C09)
+				if vBool("session_qer_listed_first") {
+					np.qerIDs = vReversed(np.qerIDs) // the order within the list is the CP's choice
+				}
 				nf := vFARSpec{id: 3, action: ActionForward, uplink: true}
 				ies = append(ies, np.create(), nf.create())
 			case 3: // update QER: close the gates
@@ -397,4 +404,12 @@ func H_C03_wide() {
 	vAssert("refused-modification-writes-nothing", len(srv.cmds) == n0)
 	vCheckBessImage(e.pc.store.GetAllSessions(), srv, "after-refused-modification")
 	vCover("refused-modification")
+}
+
+func vReversed(a []uint32) []uint32 {
+	out := make([]uint32, len(a))
+	for i, x := range a {
+		out[len(a)-1-i] = x
+	}
+	return out
 }
